@@ -261,6 +261,7 @@ type pipeProfile struct {
 	extras    bool // pre-existing files
 	prev      bool // previous gengo.sum variants
 	locals    bool // function-local types and type parameters, blank declarations
+	inOutput  bool // sometimes a type is declared in what looks like the earlier output of one of the generators
 	nested    bool // sometimes a second module nested in the tree
 	maxPkgs   int
 	allChance int
@@ -332,12 +333,28 @@ func genScenario(r *Rng, pf pipeProfile) PScn {
 		if r.Chance(30) {
 			p.Extra = append(p.Extra, "zdoc.go") // part of the package-level tags stands in a second file's package comment
 		}
+		if pf.inOutput && r.Chance(30) {
+			// a package-level type declared in a file named like the output of one of the generators (what a generator that
+			// emits type declarations leaves for the next run): a package-level type like any other
+			var cand []int
+			for i, t := range p.Types {
+				if strings.Contains("nsgia", t.Kind) {
+					cand = append(cand, i)
+				}
+			}
+			if len(cand) > 0 {
+				f := pipeBase + "." + gens[r.Intn(len(gens))].Name + ".go"
+				p.Types[cand[r.Intn(len(cand))]].In = f
+				p.Extra = append(p.Extra, f)
+			}
+		}
 		if pf.extras {
 			for _, e := range []string{pipeBase + ".old.go", pipeBase + "x.go", pipeBase + ".proto.go", pipeBase + ".rec.go", pipeBase + "_test.go", pipeBase + ".recx.go", "notes.txt", pipeBase + ".txt", "extra.go", "linked.go"} {
 				if r.Chance(35) {
 					p.Extra = append(p.Extra, e)
 				}
 			}
+			p.LineDir = r.Chance(25)
 		}
 		s.Pkgs = append(s.Pkgs, p)
 	}
@@ -410,13 +427,13 @@ const pipeRuleCommon = "synthetic modules of 1–4 packages (directories and typ
 
 func init() {
 	register(&Property{ID: "C06", Streams: []*Stream{
-		pipeStream("dispatch", 500, 3600, "calls", pipeProfile{locals: true, maxPkgs: 3, allChance: 50},
-			pipeRuleCommon+"plus function-local types and type parameters sharing names with package-level types, and blank (`_`) type and constant declarations carrying enabling tags; compared with the model: result, files, sum, call log in order, rendered text; oracle: call log and rendered text prescribed by the statement (sorted enabled package-level defined types, aliases to the alias hook, callbacks once each after the calls); non-trivial = at least one call was made", nil),
+		pipeStream("dispatch", 500, 3600, "calls", pipeProfile{locals: true, inOutput: true, maxPkgs: 3, allChance: 50},
+			pipeRuleCommon+"plus function-local types and type parameters sharing names with package-level types, blank (`_`) type and constant declarations carrying enabling tags, and types declared in a file named like the earlier output of one of the run's generators; compared with the model: result, files, sum, call log in order, rendered text; oracle: call log and rendered text prescribed by the statement (sorted enabled package-level defined types, aliases to the alias hook, callbacks once each after the calls); non-trivial = at least one call was made", nil),
 		pipeStream("dispatch-failing", 120, 900, "calls errors", pipeProfile{locals: false, failures: true, maxPkgs: 3, allChance: 50},
 			pipeRuleCommon+"with scripted generator errors, failing deferred callbacks and unparseable output", nil),
 	}})
 	register(&Property{ID: "C07", Streams: []*Stream{
 		pipeStream("files", 600, 4000, "files other sum", pipeProfile{extras: true, prev: true, failures: true, nested: true, maxPkgs: 4, allChance: 60},
-			pipeRuleCommon+"in a third of the scenarios a second module nested in the tree whose path extends the main module's (own go.mod, replace directive, imported by the first package, holding a tagged type and a <base>.other.go of its own); pre-existing user files (one of them possibly a symbolic link to a source file outside the package directory), look-alikes (zz_generatedx.go, zz_generated_test.go, zz_generated.txt), stale outputs, own old outputs, All on/off, previous gengo.sum none/corrupt/correct/stale/missing; oracle: the whole module tree hashed before and after — only <base>.* files of processed packages and gengo.sum under All may differ, a generator's file exists iff it rendered something (ErrIgnore with nothing rendered keeps the previous file), stale outputs are removed", nil),
+			pipeRuleCommon+"in a third of the scenarios a second module nested in the tree whose path extends the main module's (own go.mod, replace directive, imported by the first package, holding a tagged type and a <base>.other.go of its own); pre-existing user files (one of them possibly a symbolic link to a source file outside the package directory), look-alikes (zz_generatedx.go, zz_generated_test.go, zz_generated.txt), stale outputs, own old outputs, in a quarter of the packages these files open with a //line directive ahead of the package clause (naming a template, or the output file of a generator in the neighbouring package), All on/off, previous gengo.sum none/corrupt/correct/stale/missing; oracle: the whole module tree hashed before and after — only <base>.* files of processed packages and gengo.sum under All may differ, a generator's file exists iff it rendered something (ErrIgnore with nothing rendered keeps the previous file), stale outputs are removed", nil),
 	}})
 }
